@@ -404,7 +404,11 @@ func apply(reg *Registry, op string, par Par, args []Tensor, cp func([]int) []in
 				if par.K != nil && !par.Nil {
 					conf = &activations.LeakyReluConfig{M: par.K.Float()}
 				}
-				return activations.NewLeakyRelu(conf), nil
+				l := activations.NewLeakyRelu(conf)
+				if conf != nil {
+					conf.M = 12345 // the caller's config struct is the caller's: overwrite it after construction
+				}
+				return l, nil
 			case "sigmoid":
 				return activations.NewSigmoid(), nil
 			case "tanhact":
@@ -417,6 +421,9 @@ func apply(reg *Registry, op string, par Par, args []Tensor, cp func([]int) []in
 			l, err := activations.NewSoftmax(conf)
 			if err != nil {
 				return nil, err
+			}
+			if conf != nil {
+				conf.Dim = 5
 			}
 			return l, nil
 		})
@@ -442,7 +449,11 @@ func apply(reg *Registry, op string, par Par, args []Tensor, cp func([]int) []in
 			conf = &optimizers.SGDConfig{LearningRate: par.K.Float()}
 		}
 		w := a
-		if err := optimizers.NewSGD(conf).Update(&w); err != nil {
+		opt := optimizers.NewSGD(conf)
+		if conf != nil {
+			conf.LearningRate = 12345 // overwritten after construction: the optimizer must keep the rate it was built with
+		}
+		if err := opt.Update(&w); err != nil {
 			return nil, err
 		}
 		return w, nil
@@ -454,13 +465,26 @@ func apply(reg *Registry, op string, par Par, args []Tensor, cp func([]int) []in
 		if sh := x.Shape(); len(sh) > 0 {
 			feat = sh[len(sh)-1]
 		}
-		fc, err := layers.NewFC(&layers.FCConfig{Inputs: feat, Outputs: w.Shape()[0]})
+		o, err := reg.get(par.Inst, func() (any, error) {
+			conf := &layers.FCConfig{Inputs: feat, Outputs: w.Shape()[0]}
+			l, err := layers.NewFC(conf)
+			if err != nil {
+				return nil, err
+			}
+			conf.Inputs, conf.Outputs = 77, 78 // the config struct is the caller's
+			return l, nil
+		})
 		if err != nil {
 			return nil, err
 		}
+		fc := o.(*layers.FC)
 		ws := fc.Weights()
-		*ws[0].Value = w
-		*ws[1].Value = bias
+		if *ws[0].Value != w {
+			*ws[0].Value = w
+		}
+		if *ws[1].Value != bias {
+			*ws[1].Value = bias
+		}
 		return fc.Forward(x)
 	}
 	return nil, fmt.Errorf("bind.Apply: unknown op %q", op)
